@@ -284,6 +284,9 @@ def build_nodes(spec, trace: bool = True, hash_recv: bool = True) -> Dict[str, "
         nodes.append(ProbeNode(name=nd["name"], rate=nd["rate"], delay_dist=make_dist(nd["dist"]), delay=nd.get("delay"), idx=i, trace=trace,
                                hash_recv=hash_recv, ts_shift=nd.get("ts_shift", 0.0), scheduling=const.Scheduling.FREQUENCY if nd["sched"] == "F" else const.Scheduling.PHASE,
                                advance=nd["advance"]))
+    for i, nd in enumerate(spec["nodes"]):
+        if "stop_result" in nd:
+            nodes[i].stop_result = nd["stop_result"]
     for c in spec["conns"]:
         nodes[c["dst"]].connect(nodes[c["src"]], blocking=c["blocking"], skip=c["skip"], window=c["window"],
                                 jitter=const.Jitter.LATEST if c["jitter"] == "L" else const.Jitter.BUFFER, delay_dist=make_dist(c["dist"]),
